@@ -32,6 +32,10 @@ EXTRA = {  # additional checks that are expected to see a change, besides the pr
     # round 9 (Go-language slips inside refactorings)
     "C01-9a": ["C07"], "C01-9b": ["C19"], "C02-9b": ["C13"], "C03-9a": ["C01"], "C03-9b": ["C20"], "C04-9a": ["C06", "C07"], "C04-9b": ["C05"],
     "C05-9b": ["C04"], "C09-9b": ["C13"], "C10-9b": ["C13", "C14"], "C11-9b": ["C05"], "C12-9a": ["C13"], "C16-9a": ["C12"], "C16-9b": ["C12"],
+    # round 10 (one primitive swapped for another)
+    "C01-10a": ["C09"], "C01-10b": ["C07"], "C02-10a": ["C17"], "C02-10b": ["C05"], "C03-10a": ["C13"], "C04-10a": ["C09", "C10"], "C05-10b": ["C09", "C10"],
+    "C07-10a": ["C02"], "C07-10b": ["C05"], "C09-10b": ["C04"], "C10-10a": ["C17"], "C10-10b": ["C13", "C14"], "C11-10a": ["C09"], "C11-10b": ["C05"],
+    "C13-10a": ["C20", "C03"], "C14-10b": ["C15"], "C16-10a": ["C13"], "C20-10a": ["C03"],
     # seen since the accounting lemma runs with timestamps of the longest encoding (round 7)
     "C16-6a": ["C12"],
     "C03-2b": ["C09"], "C05-2b": ["C09"], "C10-2a": ["C11", "C09"], "C05-2a": ["C04"], "C06-2b": ["C04"], "C01-2b": ["C07"],
